@@ -530,6 +530,16 @@ class SQLTranslator(ASTTranslator):
     @property
     def namespace(translator):
         return translator.namespace_stack[-1]
+    def join_optimized_subquery_tables(translator, sqlquery):
+        # Tables of an aggregated subquery which is turned into JOIN + GROUP BY are added to the FROM section of the main query.
+        # Subqueries over the same collection produce the same aliases; a later one can need tables the previous did not
+        from_ast = sqlquery.from_ast[1:]
+        assert sqlquery.outer_conditions
+        from_ast[0] = from_ast[0] + [ sqland(sqlquery.outer_conditions) ]
+        main_from_ast = translator.sqlquery.from_ast
+        joined_aliases = {item[0] for item in main_from_ast[1:]}
+        main_from_ast.extend(item for item in from_ast if item[0] not in joined_aliases)
+        translator.from_optimized = True
     def can_be_optimized(translator):
         if translator.groupby_monads: return False
         if len(translator.aggregated_subquery_paths) != 1: return False
@@ -3307,12 +3317,7 @@ class AttrSetMonad(SetMixin, Monad):
         if translator.optimize == monad.tableref.name_path:
             sql_ast = make_aggr(sqlquery.expr_list)
             optimized = True
-            if not translator.from_optimized:
-                from_ast = monad.sqlquery.from_ast[1:]
-                assert sqlquery.outer_conditions
-                from_ast[0] = from_ast[0] + [ sqland(sqlquery.outer_conditions) ]
-                translator.sqlquery.from_ast.extend(from_ast)
-                translator.from_optimized = True
+            translator.join_optimized_subquery_tables(sqlquery)
         else: sql_ast = [ 'SELECT', [ 'AGGREGATES', make_aggr(sqlquery.expr_list) ],
                           sqlquery.from_ast,
                           [ 'WHERE' ] + sqlquery.outer_conditions + sqlquery.conditions ]
@@ -3445,12 +3450,7 @@ class NumericSetExprMonad(SetMixin, Monad):
             result = ExprMonad.new(result_type, sql_ast, nullable=func_name != 'SUM')
             result.nogroup = True
         else:
-            if not translator.from_optimized:
-                from_ast = sqlquery.from_ast[1:]
-                assert sqlquery.outer_conditions
-                from_ast[0] = from_ast[0] + [ sqland(sqlquery.outer_conditions) ]
-                translator.sqlquery.from_ast.extend(from_ast)
-                translator.from_optimized = True
+            translator.join_optimized_subquery_tables(sqlquery)
             sql_ast = aggr_ast
             result = ExprMonad.new(result_type, sql_ast, nullable=func_name != 'SUM')
             result.aggregated = True
